@@ -767,6 +767,8 @@ def _exist_func(prog, qn):
 
 
 def _dispatch(prog, chk, Y4, supported, enum):
+    from .. import callgraph as _cgm
+    cg_ = _cgm.get(prog)
     # --- load_database(directory, loaded_schema)
     fs = [x for x in prog.by_name(NS + 'load_database') if len(x.params) == 2]
     if len(fs) != 1:
@@ -791,9 +793,12 @@ def _dispatch(prog, chk, Y4, supported, enum):
             if not is_db2:
                 # the legacy branch takes the schema from the storage object it constructs: the detected
                 # enumerator is the `schema` member of that object
-                for d in walk(f.body):
-                    if d.get('kind') == 'VarDecl' and 'engine_storage' in (d.get('type') or ''):
-                        env0[('member', d['id'], 'schema')] = Enum(en, val)
+                bodies = [f.body] + [t.body for e_ in cg_.edges(f) for t in e_.targets
+                                     if t.body is not None and t.cls is None and prog.in_repo(t.file)]
+                for b_ in bodies:
+                    for d in walk(b_):
+                        if d.get('kind') == 'VarDecl' and 'engine_storage' in (d.get('type') or ''):
+                            env0[('member', d['id'], 'schema')] = Enum(en, val)
             outs = ev.run(env0)
             res = set()
             assigned = []
@@ -940,6 +945,8 @@ def _which_impl(prog, f, o):
     statement and the statements of the taken branch."""
     # find the ReturnStmt node by location and look at the enclosing block
     line = int(o.at.rsplit(':', 1)[1])
+    if getattr(o, 'func', None) is not None and o.func.body is not None:
+        f = o.func
     block = _enclosing_block(f.body, line)
     txt = set()
     for n in walk(block):
@@ -998,13 +1005,39 @@ def _out_param(prog, chk, Y4, f, out_param):
     """Every path of load_database that returns normally assigns the
     out-parameter `loaded_schema` (must-assign analysis over the structured body)."""
     pid = out_param['id']
+    missing = _unassigned_returns(prog, f, pid, 0)
+    if missing:
+        for m in missing:
+            chk.violation(Y4, 'load_database|loaded_schema-unassigned', m,
+                          'load_database returns at %s without assigning the out-parameter '
+                          'loaded_schema: the caller is not told the detected schema' % m)
+    else:
+        chk.ok(Y4, 'load_database assigns loaded_schema on every returning path', locstr(f.node))
 
+
+def _unassigned_returns(prog, f, pid, depth):
+    """Locations of the return statements of f that can be reached without the reference parameter / variable
+    `pid` having been assigned (directly, or by a repository callee that receives it by reference and assigns it
+    on all of its returning paths)."""
     def assigns(n):
         for x in walk(n):
             if x.get('kind') == 'BinaryOperator' and x.get('opcode') == '=':
                 l = strip(children(x)[0])
                 if l.get('kind') == 'DeclRefExpr' and (l.get('referencedDecl') or {}).get('id') == pid:
                     return True
+            if x.get('kind') == 'CallExpr' and depth < 3:
+                args = children(x)[1:]
+                idx = [i for i, a in enumerate(args) if strip(a).get('kind') == 'DeclRefExpr'
+                       and (strip(a).get('referencedDecl') or {}).get('id') == pid]
+                if not idx:
+                    continue
+                d, qn, _, _ = prog.resolve_callee(f.tu, x)
+                gs = [g for g in prog.by_name(qn) if g.body is not None and not g.is_pattern] if qn else []
+                if len(gs) == 1 and len(gs[0].params) == len(args):
+                    p_ = gs[0].params[idx[0]]
+                    t = p_.get('type') or ''
+                    if '&' in t and 'const' not in t and not _unassigned_returns(prog, gs[0], p_['id'], depth + 1):
+                        return True
         return False
 
     missing = []
@@ -1040,13 +1073,7 @@ def _out_param(prog, chk, Y4, f, out_param):
         return assigned
 
     walk_block(children(f.body), False)
-    if missing:
-        for m in missing:
-            chk.violation(Y4, 'load_database|loaded_schema-unassigned', m,
-                          'load_database returns at %s without assigning the out-parameter '
-                          'loaded_schema: the caller is not told the detected schema' % m)
-    else:
-        chk.ok(Y4, 'load_database assigns loaded_schema on every returning path', locstr(f.node))
+    return missing
 
 
 def _always_leaves(n):
